@@ -1,24 +1,62 @@
-"""C02 -- thin module (to be enriched): geometry engine with this property's oracles."""
-from . import geo_cases
-from .. import geosim
-from .geo_common import *  # noqa
+"""C02 -- samplers return exactly n points per parameter row, paired in order."""
+from . import geo_cases, sampler_cases
+from .. import geosim, samplersim
+from ..core.seed import rnd
+from . import geo_common
+from .geo_common import COMPONENTS, GEO_ASSUMPTIONS
 
 ID = "C02"
 LEVEL = "exploration"
-RULE = "see DESIGN.md"
-ASSUMPTIONS = GEO_ASSUMPTIONS
+PROBES = ("apply_filter", "check_in_b", "const", "tie", "edge0")
+RULE = ("half of the cases: geometry cases of C01 judged for row counts / spaces / bit-identical parameter pairing / len(); "
+        "other half: histories (len, sample with k=0..3 external rows, repeated calls) on sampler *expressions* "
+        "(leaf RandomUniform/Grid/LHS/Gaussian/Data, *, dependent *, +, append, make_static) with a recording proxy on "
+        "every node, judged by R-count: rows == n*max(k,1) per leaf, first factor asked with exactly the partner "
+        "sample, complete identical grid block per partner point, sum = concatenation, append = column stack, "
+        "dependent factor inside its domain at its partner's coordinates, len == rows of a parameter-free call. "
+        "non-trivial = at least one sample call judged; distinct = (expression shape, k values, fired fault kinds, history length)")
+ASSUMPTIONS = GEO_ASSUMPTIONS + [
+    "excluded (loud, not silent): density+filter factor that returns 0 points as a product partner; "
+    "appended samplers given external parameters (join refuses duplicate variables); "
+    "len() asked after a call with external parameters is not judged (only before the first call and after parameter-free calls)"]
 
 
 def budget(tier):
-    return {"cases": 4000 if tier == "quick" else 100000, "wall": 600 if tier == "quick" else 3300,
+    return {"cases": 5000 if tier == "quick" else 150000, "wall": 600 if tier == "quick" else 3300,
             "shrink": 80, "det_legs": 6}
 
 
 def gen_case(seed, tier="quick"):
-    return geo_cases.gen_case(ID, seed)
+    if rnd(seed, "engine").random() < 0.5:
+        return geo_cases.gen_case(ID, seed)
+    return sampler_cases.gen_c02(seed)
 
 
 def run_case(case):
+    if case.get("engine") == "samplersim":
+        return samplersim.run_c02(case)
     rec = geosim.run_case(case, props=(ID,))
-    finish(rec, case, judged_key="rows_judged")
+    geo_common.finish(rec, case, judged_key="count_checked")
     return rec
+
+
+def shrink(case):
+    if case.get("engine") != "samplersim":
+        yield from geo_common.shrink(case)
+        return
+    import copy
+    if case.get("fault"):
+        yield dict(case, fault=None)
+    h = case["history"]
+    for i in range(len(h)):
+        if len(h) > 1:
+            yield dict(case, history=h[:i] + h[i + 1:])
+    for i, op in enumerate(h):
+        if op.get("prows") and len(op["prows"]) > 1:
+            hh = copy.deepcopy(h)
+            hh[i]["prows"] = op["prows"][:1]
+            yield dict(case, history=hh)
+    t = case["samp"]
+    for c in ("a", "b"):
+        if c in t and isinstance(t[c], dict):
+            yield dict(case, samp=t[c])
